@@ -76,8 +76,12 @@ func datumTransform(source, dest *datum, x, y, z float64) (float64, float64, flo
 		}*/
 	}
 	if dest.datum_type == pjdGridShift {
-		dest.a = srsWGS84SemiMajor
-		dest.es = srsWGS84ESquared
+		// Work on a copy: the datum itself is shared with other transformers,
+		// which may be running at this moment.
+		d := *dest
+		d.a = srsWGS84SemiMajor
+		d.es = srsWGS84ESquared
+		dest = &d
 	}
 	// Do we need to go through geocentric coordinates?
 	if source.es != dest.es || source.a != dest.a || checkDatumParams(fallback) ||
